@@ -1,6 +1,7 @@
 import CnlDriver.CS
 import CnlDriver.FloatIO
 import CnlModel.RoundCvt
+import CnlModel.RoundWrap
 /-! `C09` table: narrowing conversions under a rounding tag. -/
 namespace Cnl.Drv
 open Cnl
@@ -62,6 +63,15 @@ def checkC09 (toks : List String) (res : String) : Option Verdict :=
       else if (mode == .nrst || mode == .tpi) && ed > es && !T.inRange biased then "C09.scaled_bias_overflow_near_limits" else ""
     some { model := showRes (fun r => s!"sc({r.1.toString},{ed},2):{r.2}") m, spec := spec, cls := cls,
            branch := s!"s2s/{toks[1]!}" ++ (if ed > es then "/narrow" else "/exact"), nontrivial := spec.isSome }
+  | ["w2w", mode, st, es, dt, ed, v] => do
+    -- scaled_integer<rounding_integer<S, Tag>, power<es>> -> scaled_integer<rounding_integer<D, Tag>, power<ed>>
+    let mode ← parseRdMode mode; let S ← parseIntTy st; let es ← es.toInt?; let D ← parseIntTy dt; let ed ← ed.toInt?; let v ← v.toInt?
+    let m := RoundWrap.convert mode S es D ed v
+    let q : Rat := (v : Rat) * pow2Rat (es - ed)
+    let w := roundQ mode q
+    let spec : Option Bool := if D.inRange w then some ((res.splitOn ":").getLast? == some (toString w)) else none
+    some { model := showRes (fun r => s!"sc(rd({r.1.toString},{toks[1]!}),{ed},2):{r.2}") m, spec := spec,
+           branch := s!"w2w/{toks[1]!}" ++ (if ed > es then "/narrow" else "/exact"), nontrivial := spec.isSome }
   | ["s2i", mode, st, es, dt, v] => do
     -- scaled_integer -> plain integer: through scaled_integer<Result> (exponent 0), then to_rep
     let mode ← parseRdMode mode; let S ← parseIntTy st; let es ← es.toInt?; let D ← parseIntTy dt; let v ← v.toInt?
